@@ -3,7 +3,7 @@ constant tables of gen_tables.py).  Python AST in, Coq text out; fail-closed: an
 FunError, which the check reports as a broken tie.
 
 Fragment: a function whose body is a docstring followed by  name = expr  statements,  if test: return expr  statements
-(no else) and a final  return expr.  Expressions: names, integer literals, + - * // % ** >> << & |, ==, `and`, slicing
+(no else) and a final  return expr.  Expressions: names, integer literals, + - * // % ** >> << & |, ==, !=, `and`, slicing
 x[a:b], len(x), int.from_bytes(x, byteorder="big").  Evaluation order is Python's (left to right), every operation is the
 checked operation of Base/PyEval.v, so the exceptions are those Python raises."""
 import ast
@@ -39,9 +39,10 @@ class Tr:
                 raise FunError("** is only translated for a non-zero literal base")
             v = self.fresh()
             return self.expr(e.left, lambda a: self.expr(e.right, lambda b: f"{v} <- {BINOPS[type(e.op)]} {a} {b} ;; {k(v)}"))
-        if isinstance(e, ast.Compare) and len(e.ops) == 1 and isinstance(e.ops[0], ast.Eq):
+        if isinstance(e, ast.Compare) and len(e.ops) == 1 and isinstance(e.ops[0], (ast.Eq, ast.NotEq)):
             v = self.fresh()
-            return self.expr(e.left, lambda a: self.expr(e.comparators[0], lambda b: f"{v} <- py_eq {a} {b} ;; {k(v)}"))
+            op = "py_eq" if isinstance(e.ops[0], ast.Eq) else "py_ne"
+            return self.expr(e.left, lambda a: self.expr(e.comparators[0], lambda b: f"{v} <- {op} {a} {b} ;; {k(v)}"))
         if isinstance(e, ast.BoolOp) and isinstance(e.op, ast.And) and len(e.values) == 2:
             # a and b: b is evaluated only when a is true; the value is a's when it is falsy
             v = self.fresh()
@@ -77,7 +78,7 @@ class Tr:
 
 def translate(path, fname, coq_name):
     mod = ast.parse((core.REPO / path).read_text())
-    fns = [n for n in ast.walk(mod) if isinstance(n, ast.FunctionDef) and n.name == fname]
+    fns = [n for n in ast.walk(mod) if isinstance(n, ast.FunctionDef) and n.name == fname]        # functions and (static) methods
     if len(fns) != 1:
         raise FunError(f"function {fname} not found exactly once in {path}")
     fn = fns[0]
